@@ -64,7 +64,9 @@ func stepJobs(c *Check) {
 	labels := []string{"A"}
 	vers := "7.4,5.6"
 	if c.Tier == "thorough" {
-		kPhp, kOther, depth, calls = 3, 4, 2, 2
+		// one more byte everywhere (x30 paths in the php state); stacks of depth 2 would
+		// multiply that by another 4 and are left to the quick-tier lengths (below)
+		kPhp, kOther, depth, calls = 3, 4, 1, 2
 		labels = []string{"A", "AB"}
 		vers = "7.4,7.2,5.6"
 	}
@@ -100,8 +102,23 @@ func stepJobs(c *Check) {
 			}
 		}
 	}
+	if !quick {
+		// depth-2 stacks with the quick-tier lengths
+		for _, cs := range []string{"php", "heredoc", "template_string", "backqote", "string_var", "string_var_index", "string_var_name"} {
+			for _, st := range stepStacks(cs, 2) {
+				if strings.Count(st, ",") < 1 {
+					continue
+				}
+				for kk := 0; kk <= 2; kk++ {
+					j := &interp.Job{Entry: "H_Step", Tag: "S7 lexer step/" + cs, Fuel: 900_000,
+						Params: map[string]interface{}{"cs": cs, "stack": st, "k": kk, "calls": calls, "label": "A", "ver": "7.4,5.6"}}
+					needs = append(needs, JobNeed{Job: j})
+				}
+			}
+		}
+	}
 	c.ExploreNeeds(needs, nil)
-	c.Bounds = append(c.Bounds, bound("S7 lexer step: %d consecutive calls of (*Lexer).Lex from a constructed between-tokens state - each of the 16 scanner entry states, every state stack of depth 0..%d that the call structure of scanner.rl can build, two arbitrary look-behind bytes, heredoc label %v, followed by every byte string of length 0..%d (nowdoc, heredoc, heredoc_end; thorough tier: all string states) or 0..%d (the others) up to the end of input; versions %s (quick tier: 7.4 only where neither the state nor the stack involves a heredoc; property, html and halt-compiler states with an empty stack); callback set or nil", calls, depth, labels, kOther, kPhp, vers),
+	c.Bounds = append(c.Bounds, bound("S7 lexer step: %d consecutive calls of (*Lexer).Lex from a constructed between-tokens state - each of the 16 scanner entry states, every state stack of depth 0..%d (thorough tier: also depth 2 for the php and string states with 0..2 bytes) that the call structure of scanner.rl can build, two arbitrary look-behind bytes, heredoc label %v, followed by every byte string of length 0..%d (nowdoc, heredoc, heredoc_end; thorough tier: all string states) or 0..%d (the others) up to the end of input; versions %s (quick tier: 7.4 only where neither the state nor the stack involves a heredoc; property, html and halt-compiler states with an empty stack); callback set or nil", calls, depth, labels, kOther, kPhp, vers),
 		"S7 invariant assumed of the pre-state and asserted of the post-state: cs and all stack entries are entry states, 0 <= top <= len(stack), p <= pe; in nowdoc/heredoc the closing label is not at the cursor, in heredoc_end it is (both through the lexer's own isHeredocEnd); asserted in addition: progress (p grows or the end-of-input token is returned), token text is the source slice at its offsets, input buffer unchanged")
 }
 
